@@ -1,5 +1,6 @@
 """C14 — empty content is dropped by default and kept on request, never the reverse."""
 import common
+import apicheck as A
 import random
 
 import capture
@@ -110,6 +111,25 @@ def run(out, tier, seed, model_ok):
             out.correspondence_breaks.append("driver error: " + m["error"])
             m = None
         check_forest(out, f, m, origin)
+    # whole conversions against the model's render = write (collapse (strip_empty nodes)): documents rich in content that
+    # ends up empty (empty runs / paragraphs / links / cells) and in void-only content (breaks mapped to hr / br, images,
+    # check boxes), with both values of ignore_empty_paragraphs
+    pipe_cases = []
+    for i in range(common.deepen(300 if tier == "quick" else 4000)):
+        g, parts, opts = cases.api_case(seed * 1000003 + 700000 + i,
+                                        dict(p_empty=0.45, p_break=0.35, style_map=0.8, p_table=0.25, p_image=0.05, p_checkbox=0.1, p_bookmark=0.15, bang=0.2,
+                                             max_inlines=4), sm=dict(hostile=0.05, junk=0.0))
+        opts.pop("format", None)
+        prng = random.Random(seed * 1000003 + 700000 + i)
+        if prng.random() < 0.6:
+            extra = [prng.choice(["br[type='page'] => hr", "br[type='page'] => hr:fresh", "br[type='column'] => br", "br[type='page'] => div.page",
+                                  "br[type='line'] => br", "br[type='page'] => !", "br[type='column'] => hr.col"]) for _ in range(prng.randint(1, 2))]
+            opts["styleMap"] = "\n".join(extra + [opts.get("styleMap") or ""])
+        if prng.random() < 0.5:
+            opts["ignoreEmpty"] = False
+        pipe_cases.append({"parts": parts, "options": opts, "features": sorted(g.used_features), "key": "c14p-%d-%d" % (seed, i)})
+    pipe = A.ApiRun(out, "C14", model_ok, lambda r, case: r.get("value"), name="rendered")
+    pipe.run(pipe_cases, nontrivial=lambda c, r: c["options"].get("ignoreEmpty") is False or "styleMap" in c["options"])
     # the option: ignore_empty_paragraphs=False keeps every paragraph that no `!` drops
     for i in range(150 if tier == "quick" else 2000):
         parts, opts, expect = paragraphs_kept_case(seed * 31 + i)
@@ -129,6 +149,9 @@ def run(out, tier, seed, model_ok):
 
 def replay(out, payload, model_ok):
     case = payload["case"]
+    if case["kind"] == "api" and case.get("check") == "rendered":
+        A.replay_case(out, "C14", model_ok, payload, lambda r, case: r.get("value"))
+        return
     if case["kind"] == "forest":
         f = case["forest"]
         m = run_driver([{"op": "html", "nodes": f}])[0] if model_ok else None
